@@ -296,6 +296,31 @@ pub fn object_probes(w: &mut World, found: &BTreeMap<u64, usize>, exact_enumerat
             }
         }
         w.count_n("c08_objects_probed", n);
+        // addresses inside a space's address range but in memory that was never mapped: neither
+        // lookup may touch them (a crash here ends the run as `crash-SIGSEGV`)
+        {
+            let mut unmapped_probes = 0u64;
+            for si in introspect::spaces(mmtk()).iter() {
+                if !si.contiguous || si.extent == 0 {
+                    continue;
+                }
+                let (lo, ext) = (si.start.as_usize(), si.extent);
+                for p in [lo + ext / 2 + 8, lo + ext - 4096 + 8, lo + ext / 4 * 3 + 16, lo + (ext / 8 * 7 & !4095) + 8] {
+                    let a = unsafe { Address::from_usize(p) };
+                    if mm::is_mapped_address(a) {
+                        continue;
+                    }
+                    unmapped_probes += 1;
+                    if mm::is_mmtk_object(a).is_some() {
+                        violation("C08", "unmapped-address-accepted", format!("is_mmtk_object({:#x}) accepted an unmapped address of space '{}'", p, si.name));
+                    }
+                    if mm::find_object_from_internal_pointer(a, 1 << 20).is_some() {
+                        violation("C08", "unmapped-address-accepted", format!("find_object_from_internal_pointer({:#x}) found an object at an unmapped address of space '{}'", p, si.name));
+                    }
+                }
+            }
+            w.count_n("c08_unmapped_probes", unmapped_probes);
+        }
         // addresses outside MMTk memory must not panic and must be rejected
         for p in [8usize, 0x1000, 0x7fff_ffff_f000, usize::MAX & !7, w.spec.cfg.meta_base + 4096] {
             if mm::is_mmtk_object(unsafe { Address::from_usize(p) }).is_some() {
